@@ -146,6 +146,7 @@ def values(budget, depth):
         yield ("G",)  # tensor that requires grad (e.g. an nn.Parameter held by a module)
         yield ("N",)  # non-contiguous tensor (a transposed view of a buffer)
         yield ("S",)
+        yield ("E",)  # tensor-free sub-module that still has container attributes (tuple of strings, empty dict, int)
     for kind in ("D", "U", "L", "M"):
         if kind == "M" and depth >= 3:
             continue
@@ -189,6 +190,10 @@ def build_value(spec, torch, OptimizerModule, ctr, fill):
     if k == "S":
         ctr[0] += 1
         return ctr[0] if fill else -1
+    if k == "E":
+        e = OptimizerModule()
+        e.names, e.table, e.count = ("a", "b"), {}, 3
+        return e
     kids = [build_value(s, torch, OptimizerModule, ctr, fill) for s in spec[1:]]
     if k == "D":
         return {f"k{i}": v for i, v in enumerate(kids)}
